@@ -181,6 +181,20 @@ class Real:
                 ic[self.dests[d]] = {"d": sc(sv[f"dd.{d}"])}
         return ic
 
+    def numpy_step_elementwise(self, sv, scalar_shape="vec1"):
+        """the element-level API with its own defaults: every element initialised by its own init_vars (no option
+        passed), then origins and links stepped one by one with the next-options explicitly off"""
+        eng = NpEngine(float("nan"))
+        ic = self.init_conditions(sv, scalar_shape)
+        with np.errstate(all="ignore"):
+            for el in self.net.elements:
+                el.init_vars(init_conditions=ic.get(el), engine=eng)
+            for el in self.net.origins:
+                el.step(net=self.net, engine=eng, positive_next_queue=False, **self.step_kwargs())
+            for (_, _, el) in self.net.links:
+                el.step(net=self.net, engine=eng, positive_next_speed=False, positive_next_density=False, **self.step_kwargs())
+        return self.read_next()
+
     def numpy_step(self, sv, opts=None, scalar_shape="vec1", engine=None):
         """returns ({out token: float}, ic)"""
         from harness.nets import opts_kwargs
